@@ -326,4 +326,201 @@ theorem update5_free (f : List ℝ → ℝ) (w : W ℝ) (params : PList ℝ) (ho
     simp only []
     exact ⟨trivial, fun k hk => absurd hk (by omega)⟩
 
+
+/-! ### two-point scheme -/
+
+theorem prepare_free (f : List ℝ → ℝ) {params B : PList ℝ} (hF : Free f params B) {w0 : W ℝ} {slot : W ℝ → ℝ} {lp : Loop ℝ}
+    (hLI : LI f params B w0 slot lp) (var : Name) (b : Param ℝ) (hhas : has params var = true)
+    (hb : find? B var = some b) (hlast : lp.lastVar ≠ some var) :
+    ∃ p, prepare params lp.w.h lp var = .ok (p, b.value, -(one + Scalar.abs b.value) * lp.w.h) ∧
+      ∀ q0 ∈ p.head?, q0.con = none ∧ q0.prec = 0 := by
+  obtain ⟨p, hsub, hhead⟩ := sub_ok f hF hLI var hhas hlast
+  have hval := valueOf_base hLI var b hb hlast
+  refine ⟨p, ?_, hhead⟩
+  unfold prepare
+  simp only []
+  split
+  · rename_i e he
+    have := hsub.symm.trans he
+    cases this
+  · rename_i p' hp'
+    have hpp : p' = p := by
+      have := hsub.symm.trans hp'
+      injection this with this; exact this.symm
+    subst hpp
+    rw [hval]
+    simp only []
+    cases p' with
+    | nil =>
+      exfalso
+      have := subNames_spec params _ [] hsub
+      cases hlv : lp.lastVar <;> (rw [hlv] at this; simp [names] at this)
+    | cons q0 rest =>
+      simp only []
+      obtain ⟨_, hp0⟩ := hhead q0 (by simp)
+      have : ltb (Scalar.abs (-(one + Scalar.abs b.value) * lp.w.h)) q0.prec = false := by
+        rw [hp0, ScalarReal.ltb_false_iff, ScalarReal.abs_eq]; exact abs_nonneg _
+      rw [this]; simp
+
+/-- one iteration of the two-point loop on the nominal path -/
+theorem step2_free (f : List ℝ → ℝ) {params B : PList ℝ} (hF : Free f params B) {w0 : W ℝ} (lp : Loop ℝ)
+    (hLI : LI f params B w0 (fun w => w.f1) lp) (i : Nat) (var : Name) (b : Param ℝ)
+    (hhas : has params var = true) (hb : find? B var = some b) (hlast : lp.lastVar ≠ some var) (hh : lp.w.h ≠ 0) :
+    (step2 f params lp i var).2 = none ∧ (step2 f params lp i var).1.lastVar = some var ∧
+    (step2 f params lp i var).1.w.der1 = setAt lp.w.der1 i (some (d1Two lp.w.f1
+        (f (values (upd1 B var (b.value + -(one + Scalar.abs b.value) * lp.w.h))))
+        (-(one + Scalar.abs b.value) * lp.w.h))) ∧
+    (step2 f params lp i var).1.w.der2 = lp.w.der2 := by
+  obtain ⟨p, hprep, hhead⟩ := prepare_free f hF hLI var b hhas hb hlast
+  have hri := prepare_RI f hLI var lp.w.h p b.value _ hprep
+  have hh0 : -(one + Scalar.abs b.value) * lp.w.h ≠ 0 := by
+    simp only [ScalarReal.one_eq, ScalarReal.abs_eq]
+    have : (1 + |b.value|) ≠ 0 := by positivity
+    exact mul_ne_zero (neg_ne_zero.mpr this) hh
+  obtain ⟨a1, a2, a3, a4, _⟩ := retry_free f hF true b.value 9 lp.w.fn p _ none hri hhead hh0
+  unfold step2
+  have hnh : (!has params var) = false := by rw [hhas]; rfl
+  rw [hnh]
+  simp only [Bool.false_eq_true, if_false, hprep]
+  simp only [a1, a2, a3, a4, Option.isSome_none, Bool.false_eq_true, if_false]
+  exact ⟨trivial, trivial, trivial, trivial⟩
+
+noncomputable def two1 (f : List ℝ → ℝ) (B : PList ℝ) (hh f1 : ℝ) (var : Name) : DVal ℝ :=
+  match find? B var with
+  | some b => some (d1Two f1 (f (values (upd1 B var (b.value + -(one + Scalar.abs b.value) * hh))))
+      (-(one + Scalar.abs b.value) * hh))
+  | none => none
+
+theorem loop2_free (f : List ℝ → ℝ) {params B : PList ℝ} (hF : Free f params B) {w0 : W ℝ} (hh : w0.h ≠ 0) :
+    ∀ (vs : List Name) (i0 : Nat) (lp : Loop ℝ), LI f params B w0 (fun w => w.f1) lp →
+      (∀ l, lp.lastVar = some l → l ∉ vs) → vs.Nodup → (∀ v ∈ vs, has params v = true → v ∈ names B) →
+      (loopGo (step2 f params) vs i0 lp).2 = none ∧
+      LI f params B w0 (fun w => w.f1) (loopGo (step2 f params) vs i0 lp).1 ∧
+      (loopGo (step2 f params) vs i0 lp).1.w.der1.length = lp.w.der1.length ∧
+      (∀ j, j < i0 → (loopGo (step2 f params) vs i0 lp).1.w.der1[j]? = lp.w.der1[j]?) ∧
+      (∀ k (hk : k < vs.length), has params vs[k] = true → i0 + k < lp.w.der1.length →
+        (loopGo (step2 f params) vs i0 lp).1.w.der1[i0 + k]? = some (two1 f B w0.h w0.f1 vs[k])) := by
+  intro vs
+  induction vs with
+  | nil =>
+    intro i0 lp hLI _ _ _
+    exact ⟨rfl, hLI, rfl, fun j _ => rfl, fun k hk => by simp at hk⟩
+  | cons v vs ih =>
+    intro i0 lp hLI hlast hnd hin
+    have hnd' := List.nodup_cons.mp hnd
+    unfold loopGo
+    by_cases hhas : has params v = true
+    · obtain ⟨b, hb⟩ : ∃ b, find? B v = some b := by
+        cases hf : find? B v with
+        | none => exact absurd (hin v (List.mem_cons_self ..) hhas) (find?_none hf)
+        | some b => exact ⟨b, rfl⟩
+      have hhl : lp.w.h ≠ 0 := by rw [hLI.2.2.2.1.h]; exact hh
+      obtain ⟨s1, s2, s3, _⟩ := step2_free f hF lp hLI i0 v b hhas hb
+        (fun e => hlast v e (List.mem_cons_self ..)) hhl
+      have hLI1 := step2_LI f hF.ctx lp hLI i0 v _ rfl s1
+      rcases hs : step2 f params lp i0 v with ⟨lp1, e1⟩
+      rw [hs] at s1 s2 s3 hLI1
+      simp only [] at s1 s2 s3 hLI1
+      subst s1
+      simp only []
+      obtain ⟨r1, r2, r3, r6, r7⟩ := ih (i0 + 1) lp1 hLI1
+        (by intro l hl; rw [s2] at hl; injection hl with hl; subst hl; exact hnd'.1)
+        hnd'.2 (fun x hx => hin x (List.mem_cons_of_mem _ hx))
+      have hl1 : lp1.w.der1.length = lp.w.der1.length := by rw [s3]; simp [setAt]
+      refine ⟨r1, r2, r3.trans hl1, ?_, ?_⟩
+      · intro j hj
+        rw [r6 j (by omega), s3]
+        exact setAt_get_lt _ _ _ _ hj
+      · intro k hk hhk hlen
+        cases k with
+        | zero =>
+          simp only [List.getElem_cons_zero, Nat.add_zero] at hlen ⊢
+          have hslot : lp.w.f1 = w0.f1 := hLI.2.2.2.2
+          have hhw : lp.w.h = w0.h := hLI.2.2.2.1.h
+          rw [r6 i0 (by omega), s3, setAt_get_self _ _ _ hlen]
+          simp only [two1, hb, hhw, hslot]
+        | succ k =>
+          simp only [List.getElem_cons_succ]
+          have e : i0 + (k + 1) = i0 + 1 + k := by omega
+          rw [e]
+          exact r7 k (by simpa using hk) (by simpa using hhk) (by rw [hl1]; omega)
+    · have hs : step2 f params lp i0 v = (lp, none) := by
+        unfold step2
+        have : (!has params v) = true := by simpa using hhas
+        rw [this]; simp
+      rw [hs]
+      simp only []
+      obtain ⟨r1, r2, r3, r6, r7⟩ := ih (i0 + 1) lp hLI
+        (fun l hl hm => hlast l hl (List.mem_cons_of_mem _ hm)) hnd'.2 (fun x hx => hin x (List.mem_cons_of_mem _ hx))
+      refine ⟨r1, r2, r3, fun j hj => r6 j (by omega), ?_⟩
+      intro k hk hhk hlen
+      cases k with
+      | zero => simp only [List.getElem_cons_zero] at hhk; exact absurd hhk hhas
+      | succ k =>
+        simp only [List.getElem_cons_succ]
+        have e : i0 + (k + 1) = i0 + 1 + k := by omega
+        rw [e]; exact r7 k (by simpa using hk) (by simpa using hhk) (by omega)
+
+theorem update2_free (f : List ℝ → ℝ) (w : W ℝ) (params : PList ℝ) (hown : Own w.fn) (hok : w.fn.OK f)
+    (hF : Free f params w.fn.params) (hpnd : (names params).Nodup) (hc1 : w.c1 = true)
+    (hvars : w.vars.Nodup) (hin : ∀ v ∈ w.vars, has params v = true → v ∈ names w.fn.params) (hh : w.h ≠ 0)
+    (hl1 : w.der1.length = w.vars.length) :
+    (update2 f w params).2 = none ∧
+    ∀ k (hk : k < w.vars.length), has params w.vars[k] = true →
+      (update2 f w params).1.der1[k]? = some (two1 f w.fn.params w.h (f (values w.fn.params)) w.vars[k]) := by
+  have hc := hF.ctx
+  unfold update2
+  by_cases hne : w.vars.length > 0
+  · have hcond : (w.c1 && decide (w.vars.length > 0)) = true := by simp [hc1, hne]
+    rw [if_pos hcond]
+    simp only []
+    have hown0 : Own (w.fn.enable1 false) := by unfold Own; simp; exact hown
+    have hok0 : (w.fn.enable1 false).OK f := enable1_OK f _ _ hok
+    have hnc0 : ∀ p ∈ (w.fn.enable1 false).params, p.con = none := by simpa using hF.nocon
+    have h0 := first_set f (w.fn.enable1 false) hown0 hok0 (by simpa using hc.sync) hpnd
+    have hn0 := setParameters_nocon f (w.fn.enable1 false) params hnc0
+    rcases hs1 : (w.fn.enable1 false).setParameters f params with ⟨fn1, e1⟩
+    rw [hs1] at h0 hn0
+    simp only [] at hn0
+    subst hn0
+    obtain ⟨g1, g2, g3, _, _⟩ := h0
+    simp only [] at g1 g2 g3
+    have hp1 : fn1.params = w.fn.params := by have := g1 trivial; simpa using this
+    have hval : fn1.fval = f (values w.fn.params) := by rw [← hp1]; exact g2
+    simp only []
+    have htb : tooBig fn1.fval = false := by rw [hval]; exact hF.bounded _
+    rw [htb]
+    simp only [Bool.false_eq_true, if_false]
+    have hLI0 : LI f params w.fn.params { w with fn := fn1, f1 := fn1.fval } (fun w => w.f1)
+        { w := { w with fn := fn1, f1 := fn1.fval }, p := [], lastVar := none } :=
+      ⟨g2, (by rw [hp1]; exact Dev.refl _ _), (fun l h => by cases h), Frame.refl _, rfl⟩
+    obtain ⟨r1, r2, r3, _, r7⟩ := loop2_free f hF (w0 := { w with fn := fn1, f1 := fn1.fval }) hh w.vars 0 _ hLI0
+      (fun l h => by cases h) hvars hin
+    rcases hl : loopGo (step2 f params) w.vars 0 { w := { w with fn := fn1, f1 := fn1.fval }, p := [], lastVar := none } with ⟨lp, e⟩
+    rw [hl] at r1 r2 r3 r7
+    simp only [] at r1 r2 r3 r7
+    subst r1
+    simp only []
+    have hnl : ∀ p ∈ lp.w.fn.params, p.con = none := r2.2.1.nocon hF.nocon
+    obtain ⟨q1, q2, _, _⟩ := finish_free f params lp.lastVar lp.w hnl r2.2.2.1
+    refine ⟨q1, ?_⟩
+    intro k hk hhk
+    have a := r7 k hk hhk
+    rw [q2]
+    simp only [Nat.zero_add] at a
+    rw [hval] at a
+    exact a (by rw [hl1]; exact hk)
+  · have hcond : (w.c1 && decide (w.vars.length > 0)) = false := by simp [hne]
+    rw [hcond]
+    simp only [Bool.false_eq_true, if_false]
+    have hnc0 : ∀ p ∈ (({ w with fn := w.fn.enable1 w.c1 } : W ℝ).enable2 w.c2).params, p.con = none := by
+      simpa using hF.nocon
+    have hn0 := setParameters_nocon f (({ w with fn := w.fn.enable1 w.c1 } : W ℝ).enable2 w.c2) params hnc0
+    rcases hs1 : (({ w with fn := w.fn.enable1 w.c1 } : W ℝ).enable2 w.c2).setParameters f params with ⟨fn1, e1⟩
+    rw [hs1] at hn0
+    simp only [] at hn0
+    subst hn0
+    simp only []
+    exact ⟨trivial, fun k hk => absurd hk (by omega)⟩
+
 end Bpp.NumDeriv
